@@ -128,7 +128,7 @@ func (g *G) BuiltinCall(d int) *gen.Node {
 		return gen.NCall("datetime", g.KeyArg(), lit([]string{"s", "ms", "us", "", "S", "MS", "Ms", "mS", "ns"}), lit([]string{"RFC3339", "ANSIC", "Kitchen", "nope", "", "rfc3339", "RFC822Z", "StampNano"}))
 	case "default_time":
 		if opt() {
-			return gen.NCall("default_time", g.KeyArg(), lit([]string{"+8", "-3:30", "Asia/Shanghai", "UTC", "CST", "+99", "Nowhere/City", ""}))
+			return gen.NCall("default_time", g.KeyArg(), lit(ZoneArgs))
 		}
 		return gen.NCall("default_time", g.KeyArg())
 	default:
@@ -153,3 +153,11 @@ func (g *G) ValuelessExpr() *gen.Node {
 		return gen.NAttr(gen.NIdent("a"), gen.NIndex(gen.NIdent("b"), gen.NInt(0)))
 	}
 }
+
+// ZoneArgs are spellings of the zone argument of default_time(): documented offsets, names, and every degenerate or
+// near-miss shape (a bare sign, zero-padded hours, other letter cases, blanks, path-like names, long text).
+var ZoneArgs = []string{"+8", "-3:30", "Asia/Shanghai", "UTC", "CST", "+99", "Nowhere/City", "",
+	"+", "-", "+0", "-0", "+00", "+08", "-08:00", "+8:", "+:30", "+8:00", "+5:45", "+12:45", "+14", "-11", "-12", "+15", "+9", "-9:30",
+	"utc", "Utc", "asia/shanghai", "ASIA/TOKYO", "Asia/Tokyo", "asia/tokyo", "Local", "local", "Z", "GMT", "EST", "cst", "Europe/London", "europe/london",
+	" +8", "+8 ", "+\u0668", "\x00", "../UTC", "Asia/Shanghai/", "/", ".", ":", "+-8", "America/Argentina/Buenos_Aires",
+	"Asia/ShanghaiAsia/ShanghaiAsia/ShanghaiAsia/ShanghaiAsia/ShanghaiAsia/ShanghaiAsia/ShanghaiAsia/ShanghaiAsia/ShanghaiAsia/ShanghaiAsia/ShanghaiAsia/ShanghaiAsia/ShanghaiAsia/ShanghaiAsia/ShanghaiAsia/ShanghaiAsia/ShanghaiAsia/ShanghaiAsia/Shanghai"}
